@@ -291,6 +291,14 @@ pub enum Op {
     /// Declare variable with var (hoisted): env.define_var(name, r[init])
     DeclareVarHoisted { name: ConstantIndex, init: Register },
 
+    /// Inside a namespace body: rebind `name` in the current scope as the live property
+    /// r[ns].name (an exported namespace variable is a property of the namespace object)
+    DeclareNamespaceExport { ns: Register, name: ConstantIndex },
+
+    /// On entering a namespace body: bind every own enumerable string-keyed property of
+    /// r[ns] (the exports of earlier blocks of a merged namespace) as live bindings
+    BindNamespaceExports { ns: Register },
+
     /// Get global variable (optimized path for globals)
     GetGlobal { dst: Register, name: ConstantIndex },
 
